@@ -5,6 +5,8 @@ from fractions import Fraction
 
 import numpy as np
 
+from .. import shapes as S
+
 from .. import weaver_common as W
 from ..core import fmt, fmt_list, parse_rats, frac, err_kind, exact, floats
 
@@ -90,6 +92,19 @@ def gen_session(rng):
             b2 = rng.choice([None, "@-1", "@2", "@3", "9786709/4194304"])
             qs.append({"q": "slice_v", "start": a, "stop": b2, "step": rng.choice([1, 1, 2])})
     c["queries"] = qs
+    if rng.random() < 0.35:
+        # the same requests before and after the caller edits, in place, the arrays get() handed out
+        # (same array objects, other contents): a slice is a function of the series as it is NOW
+        vq = [q for q in qs if q["q"] == "slice_v" or rng.random() < 0.5][:3]
+        pre = [{"op": "query", "query": dict(q)} for q in vq]
+        poke = W.gen_poke_op(rng)
+        # literal bounds are only comparable where every abscissa is exact in floating point (no computed grid)
+        exact_hist = all(o["op"] in ("shift_x", "scale_x", "repeat", "append", "trunc_i") for o in c["ops"])
+        if rng.random() < 0.5:
+            # a shift by a whole number of steps of a uniform series: the old bounds are samples again, elsewhere
+            xs = [Fraction(v) for v in c["x"]]
+            poke = {"op": "poke_x", "v": str((xs[1] - xs[0]) * rng.choice([-2, -1, 1, 2, 3]))}
+        c["ops"] = c["ops"] + pre + [poke] + [{"op": "query", "query": dict(q, again=exact_hist and rng.random() < 0.7)} for q in vq]
     return c
 
 
@@ -110,7 +125,7 @@ def run_impl(c):
         from traffic_weaver.process import truncate
         x, y = V(c)
         try:
-            rx, ry = truncate(np.array(floats(x)), np.array(floats(y)), float(Fraction(c["l"])), float(Fraction(c["r"])),
+            rx, ry = truncate(S.arr(floats(x)), S.arr(floats(y)), float(Fraction(c["l"])), float(Fraction(c["r"])),
                               c["lr"], c["rr"])
             return {"ok": [[float(v) for v in rx], [float(v) for v in ry]]}
         except Exception as e:  # noqa
@@ -206,45 +221,63 @@ def oracle(c, io):
             for k in W.KEYS[:4]:
                 if s[k] != prev[k][a:b]:
                     return f"truncate_by_index({a}, {b}): {k} is not the Python slice"
-    final = None
-    for st in steps[:nops + 1]:
+    # every slice request is judged against the series as it is at that moment (in-program requests included)
+    cur = None
+    reqs = [o.get("query") if o["op"] == "query" else None for o in c["ops"]] + list(c.get("queries", []))
+    for st, q in zip(steps[1:], reqs):
         if "state" in st:
-            final = st["state"]
-    for q, st in zip(c.get("queries", []), steps[nops + 1:]):
-        if final is None:
-            break
-        xf, yf = final["x"], final["y"]
-        if q["q"] == "slice_i":
-            bad = q["start"] < 0 or (q["stop"] is not None and q["stop"] > len(xf))
-            if bad:
-                if st.get("query_err") != "ValueError":
-                    return f"slice_by_index({q['start']}, {q['stop']}) out of range not rejected with ValueError: {st}"
-            elif "query" in st:
-                if st["query"][0] != xf[q["start"]:q["stop"]:q["step"]] or st["query"][1] != yf[q["start"]:q["stop"]:q["step"]]:
-                    return f"slice_by_index({q['start']}, {q['stop']}, {q['step']}) differs from the Python slice"
-            else:
-                return f"valid slice_by_index raised {st.get('query_err')}"
+            cur = st["state"]
+    cur = steps[0].get("state")
+    for st, q in zip(steps[1:], reqs):
+        if "state" in st:
+            cur = st["state"]
+            continue
+        if q is None or cur is None:
+            continue
+        r = judge_query(q, st, cur["x"], cur["y"])
+        if r:
+            return r
+    return None
+
+
+def judge_query(q, st, xf, yf):
+    if q["q"] == "slice_i":
+        bad = q["start"] < 0 or (q["stop"] is not None and q["stop"] > len(xf))
+        if bad:
+            if st.get("query_err") != "ValueError":
+                return f"slice_by_index({q['start']}, {q['stop']}) out of range not rejected with ValueError: {st}"
+        elif "query" in st:
+            if st["query"][0] != xf[q["start"]:q["stop"]:q["step"]] or st["query"][1] != yf[q["start"]:q["stop"]:q["step"]]:
+                return f"slice_by_index({q['start']}, {q['stop']}, {q['step']}) differs from the Python slice"
         else:
-            def val(v):
-                if v is None:
-                    return None
-                if isinstance(v, str) and v.startswith("@"):
-                    return xf[int(v[1:])]
-                return float(Fraction(v))
-            a, b = val(q["start"]), val(q["stop"])
-            absent = (a is not None and a not in xf) or (b is not None and b not in xf)
-            if absent:
-                if st.get("query_err") != "ValueError":
-                    return f"slice_by_value with a value that is not a sample not rejected with ValueError: {st}"
-            elif "query" in st:
-                lo = xf[0] if a is None else a
-                hi = xf[-1] if b is None else b
-                keep = [i for i, v in enumerate(xf) if lo <= v <= hi][::q["step"]]
-                if st["query"][0] != [xf[i] for i in keep] or st["query"][1] != [yf[i] for i in keep]:
-                    return (f"slice_by_value({q['start']}, {q['stop']}) returned {st['query'][0]}, the samples with "
-                            f"start <= x <= stop are {[xf[i] for i in keep]}")
-            else:
-                return f"valid slice_by_value({q['start']}, {q['stop']}) raised {st.get('query_err')}"
+            return f"valid slice_by_index raised {st.get('query_err')}"
+        return None
+
+    def val(v):
+        if v is None:
+            return None
+        if isinstance(v, str) and v.startswith("@"):
+            i = int(v[1:])
+            if not xf:
+                return 0.0
+            return xf[i] if -len(xf) <= i < len(xf) else xf[-1]      # the same rule as the runner's
+        return float(Fraction(v))
+    a, b = val(q["start"]), val(q["stop"])
+    if "_lit" in q:
+        a, b = q["_lit"]
+    absent = (a is not None and a not in xf) or (b is not None and b not in xf)
+    if absent:
+        if st.get("query_err") != "ValueError":
+            return f"slice_by_value with a value that is not a sample not rejected with ValueError: {st}"
+    elif "query" in st:
+        lo = xf[0] if a is None else a
+        hi = xf[-1] if b is None else b
+        keep = [i for i, v in enumerate(xf) if lo <= v <= hi][::q["step"]]
+        if st["query"][0] != [xf[i] for i in keep] or st["query"][1] != [yf[i] for i in keep]:
+            return (f"slice_by_value({q['start']}, {q['stop']}) returned {st['query'][0]}, the samples with "
+                    f"start <= x <= stop are {[xf[i] for i in keep]}")
+    else:
+        return f"valid slice_by_value({q['start']}, {q['stop']}) raised {st.get('query_err')}"
     return None
 
 
